@@ -66,6 +66,29 @@ func init() {
 		s := powv2.SufficientTrailingZeros(data, t) // panics on overflow: reported as "panic"
 		return itoa(s) + " " + powv2.TargetHash(data, t).String()
 	}
+	// one worker goroutine's whole mining loop from an arbitrary start nonce (hook WorkerRun)
+	execs["pow1.worker"] = func(a []string) string {
+		start, _ := strconv.ParseUint(a[1], 10, 64)
+		z, _ := strconv.Atoi(a[2])
+		n, err := pow.New(1).WorkerRun(unhx(a[0]), start, uint(z))
+		if err != nil {
+			return "err"
+		}
+		return strconv.FormatUint(n, 10)
+	}
+	opTimeout["pow1.worker"] = 20 * time.Second
+	execs["pow2.worker"] = func(a []string) string {
+		start, _ := strconv.ParseUint(a[1], 10, 64)
+		dl, _ := strconv.Atoi(a[2])
+		t, _ := strconv.ParseUint(a[3], 10, 64)
+		data := make([]byte, dl)
+		n, err := powv2.New(1).WorkerRun(unhx(a[0]), start, powv2.SufficientTrailingZeros(data, t), powv2.TargetHash(data, t))
+		if err != nil {
+			return "err"
+		}
+		return strconv.FormatUint(n, 10)
+	}
+	opTimeout["pow2.worker"] = 20 * time.Second
 	execs["pow.score"] = func(a []string) string {
 		data := unhx(a[0])
 		nonce, _ := strconv.ParseUint(a[1], 10, 64)
@@ -187,7 +210,61 @@ func (g *G) bigBelow(n *big.Int) *big.Int {
 	return x.Mod(x, n)
 }
 
+// workerStarts: start nonces for the single-worker loop — what Mine hands to worker i of W, multiples of 64, and
+// nonces placed so that the second, third … batch straddles a multiple of 2^8, 2^16, 2^24, 2^32, 2^48 or wraps 2^64
+func workerStarts(g *G, n int) []uint64 {
+	var out []uint64
+	for len(out) < n {
+		switch g.r.intn(6) {
+		case 0:
+			out = append(out, g.r.next())
+		case 1:
+			out = append(out, g.r.next()&^63)
+		case 2:
+			w := uint64(2 + g.r.intn(63))
+			out = append(out, uint64(g.r.intn(int(w)))*(math.MaxUint64/w)+uint64(g.r.intn(3))*64*uint64(1020+g.r.intn(8)))
+		default:
+			sh := []uint{8, 16, 16, 16, 24, 32, 48, 64}[g.r.intn(8)]
+			var base uint64
+			if sh < 64 {
+				base = (g.r.next() >> sh) << sh
+			}
+			// the boundary is crossed inside batch number j (0-based), at lane r
+			j, r := uint64(g.r.intn(4)), uint64(1+g.r.intn(63))
+			out = append(out, base-64*j-r)
+		}
+	}
+	return out
+}
+
+func genWorkerV1(g *G) {
+	n := 40
+	if g.thorough {
+		n = 600
+	}
+	for _, st := range workerStarts(g, n) {
+		g.emit("pow1.worker", hx(g.r.bytes(32)), strconv.FormatUint(st, 10), itoa(3+g.r.intn(3)))
+	}
+}
+
+func genWorkerV2(g *G) {
+	n := 40
+	if g.thorough {
+		n = 600
+	}
+	for _, st := range workerStarts(g, n) {
+		dl := g.r.intn(40)
+		lx := uint64(9 + g.r.intn(700)) // 3^s >= lx: s = 2..6
+		t := lx / uint64(dl+8)
+		if t == 0 || uint64(dl+8)*t < 8 {
+			dl, t = 0, 2+uint64(g.r.intn(40))
+		}
+		g.emit("pow2.worker", hx(g.r.bytes(32)), strconv.FormatUint(st, 10), itoa(dl), strconv.FormatUint(t, 10))
+	}
+}
+
 func genC12(g *G) {
+	genWorkerV2(g)
 	// toInt: boundary and random trit vectors
 	for _, fill := range []int8{0, 1, -1} {
 		t := make([]int8, 243)
@@ -350,6 +427,7 @@ func genC12(g *G) {
 }
 
 func genC11(g *G) {
+	genWorkerV1(g)
 	// the v1 lane test on arbitrary planes and every n
 	rounds := 60
 	if g.thorough {
